@@ -102,7 +102,7 @@ func (x *rx) iterOf(body, n ast.Node) *iter {
 			}
 			cnt := c07.LoopCount(x.info, l)
 			call, ok := cnt.(*ast.CallExpr)
-			if cnt == nil || !ok || len(call.Args) != 1 {
+			if cnt == nil || !ok || len(call.Args) != 1 || !c07.ZeroBased(x.info, l) {
 				it = nil
 				continue
 			}
@@ -190,7 +190,16 @@ func (x *rx) pipelines(fn *core.Fn, g *cfgq.Graph, scans []cfgq.Point, isScan fu
 	}
 	x.check("R4.pipeline", "doFetch/collect-between", ld.stmt.Pos(), w, "the replies of one pipeline must be collected (Do(\"\")) before the other pipeline is sent: otherwise DUMP and PTTL replies are mixed in one reply array and values/TTLs are attributed to the wrong keys")
 	// the KeyNode literal
-	cl, _ := ast.Unparen(keyChanSend.Value).(*ast.UnaryExpr)
+	// the node is `&KeyNode{...}` written in the send, or a local bound once to such a literal whose fields may
+	// be completed by assignments (`node.value = ...`) that every path from the literal to the send executes
+	sent := ast.Unparen(keyChanSend.Value)
+	var nodeVar types.Object
+	if id, isID := sent.(*ast.Ident); isID {
+		if d := pat.DefOf(x.info, id); d != nil {
+			sent, nodeVar = ast.Unparen(d), c07.Obj(x.info, id)
+		}
+	}
+	cl, _ := sent.(*ast.UnaryExpr)
 	var lit *ast.CompositeLit
 	if cl != nil {
 		lit, _ = ast.Unparen(cl.X).(*ast.CompositeLit)
@@ -208,35 +217,121 @@ func (x *rx) pipelines(fn *core.Fn, g *cfgq.Graph, scans []cfgq.Point, isScan fu
 			fields[st.Field(i).Name()] = el
 		}
 	}
-	idx := lk.idx
-	// trace: which pipeline filled the slice variable (of the region)?
-	trace := func(slice types.Object, conv string) string {
-		for _, p := range rg.Points(func(n ast.Node) bool { as, _ := c07.AssignsTo(x.info, n, slice); return as != nil }) {
-			as := p.Node().(*ast.AssignStmt)
-			if len(as.Rhs) != 1 {
+	if nodeVar != nil {
+		defP, okD := g.Find(core.PathTo(body, lit)[0])
+		for _, p := range core.PathTo(body, lit) { // the statement that holds the literal
+			if st, isSt := p.(ast.Stmt); isSt {
+				if q, found := g.Find(st); found {
+					defP, okD = q, true
+				}
+			}
+		}
+		sendP, okS := g.Find(keyChanSend)
+		undecided := !okD || !okS
+		for _, p := range g.Points(func(n ast.Node) bool { return c07.Within(n, lk.body) }) {
+			as, isAs := p.Node().(*ast.AssignStmt)
+			if !isAs {
 				continue
 			}
-			call, ok := as.Rhs[0].(*ast.CallExpr)
+			for i, l := range as.Lhs {
+				sel, isSel := ast.Unparen(l).(*ast.SelectorExpr)
+				if !isSel || c07.Obj(x.info, sel.X) != nodeVar {
+					continue
+				}
+				r := core.AssignedTo(as, i)
+				always := okD && okS && g.Path(cfgq.Query{From: defP, After: true, Avoid: c07.IsNode(as), Target: c07.IsNode(sendP.Node())}) == nil
+				if r == nil || !always {
+					undecided = true
+					continue
+				}
+				fields[sel.Sel.Name] = r
+			}
+		}
+		if undecided {
+			x.c.Undecidedf("R4.align", "doFetch/keynode", keyChanSend.Pos(), "the KeyNode sent on keyChan is completed by field assignments that are not executed on every path (or not single values)")
+			return
+		}
+	}
+	idx := lk.idx
+	// trace: which pipeline filled the slice variable (of the region)?
+	// The slice may have received the replies through copies (a result of an expanded helper, a field of a
+	// dissolved result struct): every value it can hold is traced, all of them must come from the same pipeline.
+	var trace func(slice types.Object, conv string, depth int) string
+	trace = func(slice types.Object, conv string, depth int) string {
+		got := map[string]bool{}
+		for _, p := range rg.Points(func(n ast.Node) bool { as, _ := c07.AssignsTo(x.info, n, slice); return as != nil }) {
+			as, r := c07.AssignsTo(x.info, p.Node(), slice)
+			if as != nil && r == nil && len(as.Rhs) == 1 && c07.Obj(x.info, as.Lhs[0]) == slice {
+				r = as.Rhs[0] // `slice, err = conv(reply, err)`
+			}
+			if as == nil || r == nil {
+				got["?"] = true
+				continue
+			}
+			call, ok := ast.Unparen(r).(*ast.CallExpr)
 			if !ok {
+				if src, isV := c07.Obj(x.info, r).(*types.Var); isV && !src.IsField() && depth < 3 && types.Object(src) != slice {
+					got[trace(src, conv, depth+1)] = true
+				} else if !core.IsNil(x.info, r) {
+					got["?"] = true
+				}
 				continue
 			}
 			if f := c07.CalleeF(x.info, call); f == nil || f.Name() != conv || len(call.Args) != 2 {
+				got["?"] = true
 				continue
 			}
 			reply := c07.Obj(x.info, call.Args[0])
-			isDef := func(n ast.Node) bool { a, _ := c07.AssignsTo(x.info, n, reply); return a != nil }
-			for _, dp := range rg.Points(func(n ast.Node) bool { return isDef(n) && x.isDo(n) }) {
-				if rg.Path(cfgq.Query{From: dp, After: true, Avoid: isDef, Target: c07.IsNode(p.Node())}) == nil {
+			// the Do("") that produced the reply, possibly through copies (`reply, err := r.reply, r.err`)
+			var doPoints func(v types.Object, depth int) []cfgq.Point
+			doPoints = func(v types.Object, depth int) []cfgq.Point {
+				var out []cfgq.Point
+				for _, q := range rg.Points(func(n ast.Node) bool {
+					as, isAs := n.(*ast.AssignStmt)
+					if !isAs {
+						return false
+					}
+					for _, l := range as.Lhs {
+						if c07.Obj(x.info, l) == v {
+							return true
+						}
+					}
+					return false
+				}) {
+					if x.isDo(q.Node()) {
+						out = append(out, q)
+						continue
+					}
+					as := q.Node().(*ast.AssignStmt)
+					for i, l := range as.Lhs {
+						if c07.Obj(x.info, l) == v && len(as.Lhs) == len(as.Rhs) && depth < 3 {
+							if src := c07.Obj(x.info, as.Rhs[i]); src != nil && src != v {
+								out = append(out, doPoints(src, depth+1)...)
+							}
+						}
+					}
+				}
+				return out
+			}
+			found := "?"
+			for _, dp := range doPoints(reply, 0) {
+				if rg.Path(cfgq.Query{From: dp, After: true, Avoid: x.isDo, Target: c07.IsNode(p.Node())}) == nil {
 					continue
 				}
 				fromDump := rg.Path(cfgq.Query{From: dumpS[0], After: true, Avoid: x.isDo, Target: c07.IsNode(dp.Node())}) != nil
 				fromPttl := rg.Path(cfgq.Query{From: pttlS[0], After: true, Avoid: x.isDo, Target: c07.IsNode(dp.Node())}) != nil
 				switch {
 				case fromDump && !fromPttl:
-					return "DUMP"
+					found = "DUMP"
 				case fromPttl && !fromDump:
-					return "PTTL"
+					found = "PTTL"
 				}
+			}
+			got[found] = true
+		}
+		if len(got) == 1 {
+			for k := range got {
+				return k
 			}
 		}
 		return "?"
@@ -248,7 +343,7 @@ func (x *rx) pipelines(fn *core.Fn, g *cfgq.Graph, scans []cfgq.Point, isScan fu
 		}
 		slice := c07.Obj(x.info, ix.X)
 		if reg.call == nil {
-			return trace(slice, conv), true
+			return trace(slice, conv, 0), true
 		}
 		// result binding: slice is the j-th result of the helper
 		j := -1
@@ -270,7 +365,7 @@ func (x *rx) pipelines(fn *core.Fn, g *cfgq.Graph, scans []cfgq.Point, isScan fu
 			}
 			t := "?"
 			if o := c07.Obj(x.info, ret.Results[j]); o != nil {
-				t = trace(o, conv)
+				t = trace(o, conv, 0)
 			}
 			if got != "" && got != t {
 				t = "?"
@@ -376,9 +471,40 @@ func (x *rx) filterRules(fn *core.Fn, g *cfgq.Graph, scans []cfgq.Point, keys ty
 	}
 	fh, fb := c07.RangeBlocks(rg, fl)
 	kv := c07.Obj(x.info, fl.Value)
+	// the kept slice: the slice the pipelines iterate, or a local that is copied into it after the loop and before
+	// the slice is read (`keys = kept`, the shape an expanded filtering helper leaves behind)
+	keptSet := map[types.Object]bool{kept: true}
+	if kept != nil {
+		for _, p := range rg.Points(func(n ast.Node) bool { as, _ := c07.AssignsTo(x.info, n, kept); return as != nil }) {
+			_, r := c07.AssignsTo(x.info, p.Node(), kept)
+			src, isV := c07.Obj(x.info, r).(*types.Var)
+			if r == nil || !isV || src.IsField() || types.Object(src) == raw || !c07.Within(posOf(src), rbody) {
+				continue
+			}
+			copied := c07.IsNode(p.Node())
+			reads := func(n ast.Node) bool {
+				if copied(n) {
+					return false
+				}
+				found := false
+				ast.Inspect(n, func(m ast.Node) bool {
+					if id, isID := m.(*ast.Ident); isID && x.info.Uses[id] == kept {
+						found = true
+					}
+					return !found
+				})
+				return found
+			}
+			if rg.Path(cfgq.Query{From: cfgq.Point{B: fh0(rg, fl)}, Avoid: copied, Target: reads, AvoidEdge: func(b *cfg.Block, s int) bool {
+				return b.Succs[s].Kind == cfg.KindRangeBody && b.Succs[s].Stmt == ast.Stmt(fl)
+			}}) == nil {
+				keptSet[src] = true
+			}
+		}
+	}
 	isKeep := func(n ast.Node) bool {
 		b := pat.Stmt("_k = append(_k, _v)").Match(x.info, n, nil)
-		return b != nil && c07.Obj(x.info, b["_k"].(ast.Expr)) == kept && c07.Obj(x.info, b["_v"].(ast.Expr)) == kv
+		return b != nil && keptSet[c07.Obj(x.info, b["_k"].(ast.Expr))] && c07.Obj(x.info, b["_v"].(ast.Expr)) == kv
 	}
 	filtered := func(val bool) func(*cfg.Block, int) bool {
 		return func(b *cfg.Block, s int) bool {
@@ -404,4 +530,10 @@ func (x *rx) filterRules(fn *core.Fn, g *cfgq.Graph, scans []cfgq.Point, keys ty
 		}
 	}
 	x.check("R4.keys", "doFetch/filtered-keys-dropped", fl.Pos(), wk, "a key rejected by the key filter is still appended to the key slice and copied")
+}
+
+// fh0 is the head block of a range statement.
+func fh0(g *cfgq.Graph, rs *ast.RangeStmt) *cfg.Block {
+	h, _ := c07.RangeBlocks(g, rs)
+	return h
 }
